@@ -238,6 +238,7 @@ impl Engine for C15 {
             mega_1_in: if matches!(sub, "oligo" | "kcgr" | "min") { 2500 } else { 0 },
             twin_mega_1_in: 0,
             many_1_in: 1500,
+            overflow_top_w: 1,
         };
         let mut records = g.gen(rng);
         if (sub == "oligo" || sub == "kcgr") && k >= 6 {
